@@ -72,6 +72,8 @@ func caseOptions(r *common.Run, n int) raftsim.Options {
 	o.LongPartitions = rng.Intn(3) == 0
 	// one case in eight keeps the raft state of every replica in a real sharded Pebble log store
 	o.RealStore = rng.Intn(8) == 0
+	// ... half of them in Tan (own stream: the other options of a case keep their values)
+	o.RealStoreTan = o.RealStore && r.Rand("real-store-kind", n).Intn(2) == 0
 	switch r.Prop {
 	case "C01":
 		o.AllowDup = false // the quantifier of C01 excludes duplication
